@@ -6,8 +6,8 @@ import math, os, threading
 from vlib import guarded_main
 
 NAMES = ["cohen", "jedynak", "morch", "kuhngrun", "bb"]
-# accuracy asked of each approximation on 0.02 <= |y| <= ymax (generous: the documented figures are far smaller)
-ACC = {"cohen": (0.95, 2e-2), "jedynak": (0.95, 5e-3), "morch": (0.8, 4e-3), "kuhngrun": (0.8, 4e-3), "bb": (0.95, 1e-3)}
+# accuracy asked of each approximation on 0.02 <= |y| <= ymax: the maxima proved in coq/C26Tight*.v (1% above the measured ones) + rounding slack
+ACC = {"cohen": (0.95, 1.178e-2 + 1e-9), "jedynak": (0.95, 2.72e-3 + 1e-9), "morch": (0.8, 2.08e-3 + 1e-9), "kuhngrun": (0.8, 2.08e-3 + 1e-9), "bb": (0.95, 2.2e-4 + 1e-9)}
 
 
 def lang(x):
@@ -87,6 +87,16 @@ def main(c):
                     f7_seen = True
                 c.report(key, "%s approximation at y = %r: %s" % (nm, y, why), {"approximation": nm, "y": y, "f": f, "f(-y)": fm, "df": df,
                                                                                  "reason": why, "how": "props/C26/trace.cxx run"}, True)
+        # increasing over the whole grid (both signs, across the switching points of Bergstrom-Boyce)
+        allys = sorted(vals.keys())
+        for ya, yb in zip(allys, allys[1:]):
+            c.count(1)
+            if not vals[ya][nm][0] < vals[yb][nm][0]:
+                nbad += 1
+                if "increasing" not in first_bad:
+                    first_bad["increasing"] = ya
+                    c.report("langevin:%s:increasing:%r" % (nm, ya), "%s approximation is not increasing: f(%r) = %r, f(%r) = %r" % (
+                        nm, ya, vals[ya][nm][0], yb, vals[yb][nm][0]), {"approximation": nm, "y": ya, "y_next": yb}, True)
         # derivative against a centred finite difference of the real function (execution only)
     ys_fd = [y for y in ys if abs(abs(y) - 0.84136) > 1e-3][:: max(1, len(ys) // 100)]
     ys_fd = ys_fd + [-y for y in ys_fd]   # both signs: the odd extension has its own code paths
@@ -108,7 +118,7 @@ def main(c):
                     nm, y, df, fd), {"approximation": nm, "y": y, "df": df, "finite_difference": fd}, True)
     if nbad:
         c.notes.append("%d judged points fail the independent statement of the property" % nbad)
-    c.coverage["rule"] = ("grid of %d points of 0.02 <= |y| <= 0.96 and their opposites, 5 approximations: value of AndDerivative = value, oddness, positive derivative, "
+    c.coverage["rule"] = ("grid of %d points of 0.02 <= |y| <= 0.96 and their opposites, 5 approximations: value of AndDerivative = value, oddness, positive derivative, increasing along the grid, "
                           "|L(f(y)) - y| <= tol_f for |y| <= ymax_f (%s), derivative vs centred finite difference on a sub-grid" % (len(ys), ACC))
 
     # ---- proofs
@@ -120,8 +130,13 @@ def main(c):
         par = {}
 
         def comp(f):
-            par[f] = c.coq([f], timeout=900)
-        for group in (("C26ProofsJ.v", "C26ProofsJ2.v", "C26ProofsB.v", jodd), ("C26ProofsB2.v", "C26ProofsB3.v")):
+            par[f] = c.coq([f], timeout=1200)
+        # groups of at most 4 parallel coqc; a file only depends on files of earlier groups
+        groups = [("C26ProofsJ.v", "C26ProofsJ2.v", "C26ProofsB.v", jodd), ("C26ProofsB2.v", "C26ProofsB3.v", "C26ProofsM.v", "C26TightCJ.v"),
+                  ("C26TightMB.v",) + (() if f7_seen else ("C26ProofsJM.v",)) + (() if c.quick() else ("C26TightS1.v", "C26TightS2.v"))]
+        nfiles = 0
+        for group in groups:
+            nfiles += len(group)
             ths = [threading.Thread(target=comp, args=(f,)) for f in group]
             for t in ths:
                 t.start()
@@ -130,12 +145,16 @@ def main(c):
             if not all(par[f].ok for f in group):
                 break
         results += list(par.values())
-        if all(r.ok for r in par.values()) and len(par) == 6:
-            results.append(c.coq([props], timeout=600))
-    c.coverage["checker_cmd"] = "coqc -Q coq/lib VLib -R <scratch> C26 C26_gen.v C26Spec.v C26Proofs.v C26ProofsJ.v C26ProofsJ2.v C26ProofsB.v C26ProofsB2.v C26ProofsB3.v %s %s (Coq 8.16.1, Coquelicot, Interval)" % (jodd, props)
+        if all(r.ok for r in par.values()) and len(par) == nfiles:
+            propfiles = [props, "Properties_C26_Mono.v", "Properties_C26_Tight.v"] + ([] if c.quick() else ["Properties_C26_TightThorough.v"])
+            for pf in propfiles:
+                results.append(c.coq([pf], timeout=600))
+    c.coverage["checker_cmd"] = ("coqc -Q coq/lib VLib -R <scratch> C26 C26_gen.v C26Spec.v C26Proofs.v C26ProofsJ.v C26ProofsJ2.v C26ProofsB.v C26ProofsB2.v C26ProofsB3.v "
+                                 "C26ProofsM.v C26ProofsJM.v C26TightCJ.v C26TightMB.v %s%s %s Properties_C26_Mono.v Properties_C26_Tight.v%s (Coq 8.16.1, Coquelicot, Interval)" % (
+                                     "" if c.quick() else "C26TightS1.v C26TightS2.v ", jodd, props, "" if c.quick() else " Properties_C26_TightThorough.v"))
     failed = [r for r in results if not r.ok]
     if failed:
-        c.coverage["obligations"] = max(c.coverage["obligations"], 13)
+        c.coverage["obligations"] = max(c.coverage["obligations"], 25)
         if any(v[3] for v in c.violations):
             c.notes.append("proof obligations failed: %s; concrete failing inputs are reported" % [f[:3] for r in failed for f in r.failed])
         else:
